@@ -66,6 +66,13 @@ func main() {
 		repo := fs.String("repo", "/repo", "repository")
 		fs.Parse(os.Args[2:])
 		os.Exit(govc.RunSelftest(*verif, *repo, *prop))
+	case "sweep":
+		fs := flag.NewFlagSet("sweep", flag.ExitOnError)
+		verif := fs.String("verif", "/verif", "verif dir")
+		repo := fs.String("repo", "/repo", "repository")
+		only := fs.String("only", "", "substring of function names")
+		fs.Parse(os.Args[2:])
+		os.Exit(govc.RunSweep(*repo, *verif, fs.Args(), *only))
 	case "replay":
 		if len(os.Args) < 3 {
 			fmt.Println("usage: govc replay <replay.json>")
